@@ -396,6 +396,17 @@ def py_binop(op, a, b, ctx):
         return SSetZ(a.kind, z3.SetDifference(a.z, b.z))
     if op == "&" and isinstance(a, SSetZ) and isinstance(b, SSetZ):
         return SSetZ(a.kind, z3.SetIntersect(a.z, b.z))
+    if op == "**" and is_intlike(a) and is_intlike(b):
+        # integer power with a symbolic operand: an uninterpreted function (only its sign is known)
+        POW = z3.Function("py.int_pow", z3.IntSort(), z3.IntSort(), z3.IntSort())
+        x, y = int_z(a), int_z(b)
+        r = POW(x, y)
+        ctx.assume(z3.Implies(z3.And(x >= 1, y >= 0), r >= 1))
+        return mk_int(r)
+    if (isinstance(a, float) and isinstance(b, (SInt, SBool))) or (isinstance(b, float) and isinstance(a, (SInt, SBool))):
+        # a float constant combined with a symbolic integer (delays, timeouts): real arithmetic (A-real-time)
+        a = to_xreal(a) if isinstance(a, float) else a
+        b = to_xreal(b) if isinstance(b, float) else b
     if isinstance(a, SXReal) or isinstance(b, SXReal):
         # time arithmetic: exact real arithmetic on finite values (A-real-time: binary64 rounding ignored)
         if not (is_num(a) and is_num(b)) or isinstance(a, SFloat) or isinstance(b, SFloat):
@@ -498,10 +509,17 @@ def py_neg(a):
     raise PyExc("TypeError")
 
 
+def _xreal_ite(c, x, y):
+    x, y = to_xreal(x), to_xreal(y)
+    return SXReal(z3.If(c, x.nan, y.nan), z3.If(c, x.inf, y.inf), z3.If(c, x.r, y.r))
+
+
 def py_min2(a, b):
     lt = py_order("<", b, a)
     if isinstance(lt, bool):
         return b if lt else a
+    if isinstance(a, SXReal) or isinstance(b, SXReal):
+        return _xreal_ite(lt, b, a)
     if is_intlike(a) and is_intlike(b):
         return mk_int(z3.If(lt, int_z(b), int_z(a)))
     if is_floatlike(a) and is_floatlike(b):
@@ -513,6 +531,8 @@ def py_max2(a, b):
     gt = py_order(">", b, a)
     if isinstance(gt, bool):
         return b if gt else a
+    if isinstance(a, SXReal) or isinstance(b, SXReal):
+        return _xreal_ite(gt, b, a)
     if is_intlike(a) and is_intlike(b):
         return mk_int(z3.If(gt, int_z(b), int_z(a)))
     if is_floatlike(a) and is_floatlike(b):
